@@ -90,7 +90,7 @@ def _model_cache(I, a, k):
 def _repo_const(I, a, k):
     """repo_const(relpath::Class, attr): the class attribute as the real source defines it"""
     cls = I.repo.find(a[0])
-    return I.class_attr(cls, a[1])
+    return I.getattr(ClassVal(cls), a[1])
 
 
 def _char_pred(I, a, k):
@@ -104,6 +104,12 @@ def _char_pred(I, a, k):
         f = z3.Function(f'py_{a[0]}', z3.StringSort(), z3.BoolSort())
         _PRED[a[0]] = f
     return lib.wrap_bool(f(I.term(c)))
+
+
+def _exact_div(I, a, k):
+    """exact_div(a, b): real division (natively an exact Fraction)"""
+    import ast as _ast
+    return I.binop(_ast.Div, a[0], a[1])
 
 
 def _ghost_fill(I, a, k):
@@ -140,7 +146,8 @@ def _build_string_matcher(I, a, k):
     m = I.instantiate(cls, [], {})
     ini = I.repo.find_method(cls, 'init')
     from .values import FuncVal
-    I.call_func(FuncVal(ini, m, ini.cls), [list(a[0])], {})
+    vals = a[0]
+    I.call_func(FuncVal(ini, m, ini.cls), [dict(vals) if isinstance(vals, dict) else list(vals)], {})
     return m
 
 
@@ -183,6 +190,7 @@ def _make_unit_value(I, a, k):
 
 
 NATIVE = {
+    'exact_div': _exact_div,
     'char_pred': _char_pred,
     'repo_const': _repo_const,
     'make_unit_value': _make_unit_value,
